@@ -1,6 +1,7 @@
 package fixedlength
 
 import (
+	"unicode/utf8"
 	"bufio"
 	"io"
 
@@ -59,6 +60,39 @@ func C06FixedSlice() {
 	want := string(line[bounds[lo]:bounds[hi]])
 	zz.Observe("slice", got)
 	zz.Assert(got == want, "column value is the rune-counted slice of the line")
+	zz.Cover("sliced")
+}
+
+// C03FixedSliceBytes: column extraction on arbitrary bytes (invalid UTF-8 included: Latin-1
+// text, truncated sequences, binary junk) never panics, returns a sub-slice of the line, and
+// for every position counts an undecodable byte as one rune, as utf8.DecodeRune does.
+func C03FixedSliceBytes() {
+	L := zz.Param("L", 4)
+	line := zz.NondetBytes("line", L)
+	start := zz.NondetInt("start_pos", 1, L+3)
+	length := zz.NondetInt("length", 1, L+3)
+	c := &ColumnDecl{Name: "c", StartPos: start, Length: length}
+	got := c.lineToColumnValue(line)
+	zz.Assert(len(got) <= len(line), "the value is a part of the line")
+	// reference: walk runes with the standard decoder
+	pos, runes := 0, 0
+	lo, hi := len(line), len(line)
+	for pos < len(line) {
+		if runes == start-1 {
+			lo = pos
+		}
+		if runes == start-1+length {
+			hi = pos
+			break
+		}
+		_, sz := utf8.DecodeRune(line[pos:])
+		pos += sz
+		runes++
+	}
+	if lo > hi {
+		lo = hi
+	}
+	zz.Assert(got == string(line[lo:hi]), "rune-counted slice, an undecodable byte counting as one rune")
 	zz.Cover("sliced")
 }
 
@@ -185,7 +219,7 @@ func C16Fl2() {
 		ra.Release(n)
 	}
 	failAt := zz.NondetChoice("failAt", len(f.input)+1)
-	rb := NewReader("t", &zzChunkReader{data: f.input, failAt: failAt, ioErr: zzIOErr}, decl, nil)
+	rb := NewReader("t", &zzChunkReader{data: f.input, failAt: failAt, ioErr: zzPickIOErr()}, decl, nil)
 	got := 0
 	pending := ""
 	havePending := false
